@@ -103,8 +103,9 @@ def run(tier, seed, replay=None):
         cov = ev.setdefault("coverage", {})
         cov["exp_threshold_skips"] = _skips["n"]
         cov["not_proved"] = [
-            "finiteness of the Kalman estimator state for all measurement sequences (C13_freq_cmd_partial is conditional on the frequency estimate not being NaN)",
-            "step magnitude >= threshold up to quantisation is checked by the oracle on implementation traces, not proved",
+            "finiteness of the Kalman estimator state for ALL measurement sequences: C13_freq_cmd_partial allows a NaN command, C13_freq_cmd_nan_only_if shows it needs a NaN frequency estimate; no input producing one was found (search over 10^5 adversarial streams) except through an absurd configuration (initial_frequency_uncertainty >= 1.4e154)",
+            "step magnitude >= threshold up to quantisation: checked by the oracle on every implementation trace and by a kernel-evaluated boundary lattice (C13_step_magnitude_grid_partial), not proved in general",
+            "the uniform statement forall input, kf = 0 -> ok_C13 (it would need the two items above)",
         ]
         json.dump(ev, open(path, "w"), indent=1)
     except (OSError, ValueError):
